@@ -267,7 +267,7 @@ func c17Check(c *sim.Ctx, w *world.World) {
 	}
 	var targets []target
 	for _, t := range w.Snap.Tables {
-		if acc, _ := accepted(d, t.Name); !acc {
+		if !acceptedStrict(c, d, t.Name) {
 			continue
 		}
 		targets = append(targets, target{ops.Op{Kind: "selectdone", Table: t.Name, Cols: t.ColNames()}, roots["table/"+strings.ToLower(t.Name)], true})
